@@ -228,9 +228,10 @@ enum Call {
     WeightedF(Vec<f64>),
     SetPos(u64, u32),
     Partial(u64, usize, bool),
+    UniformF(f64),
 }
 
-const MAX_SHUFFLE: usize = 1500;
+const MAX_SHUFFLE: usize = 1000;
 const MAX_PARTIAL_SHOWN: u64 = 1 << 21;
 
 fn call_val(c: &Call) -> Val {
@@ -244,6 +245,7 @@ fn call_val(c: &Call) -> Val {
         Call::WeightedF(ws) => Val::L(vec![Val::I(6), Val::L(ws.iter().map(|w| f64_val(*w)).collect())]),
         Call::SetPos(b, off) => Val::L(vec![Val::I(7), hl(*b), Val::I(*off as i64)]),
         Call::Partial(len, amount, show) => Val::L(vec![Val::I(8), hl(*len), Val::u(*amount), Val::b(*show)]),
+        Call::UniformF(h) => Val::L(vec![Val::I(9), f64_val(*h)]),
     }
 }
 
@@ -306,6 +308,14 @@ fn val_call(v: &Val) -> Option<Call> {
                 return None;
             }
             Call::Partial(len, amount, show)
+        }
+        9 => {
+            arity(2)?;
+            let h = val_f64(&l[1])?;
+            if h.is_nan() {
+                return None; // the order of the constructor's tests depends on debug assertions for NaN
+            }
+            Call::UniformF(h)
         }
         _ => return None,
     })
@@ -421,7 +431,15 @@ fn rng_script(seed: u64, script: &[Call], tags: &mut Vec<String>) -> Val {
             Call::WeightedF(ws) => match catch_unwind(AssertUnwindSafe(|| WeightedIndex::new(ws.clone()))) {
                 Err(_) => werr(5),
                 Ok(Err(e)) => werr(werr_code(e)),
-                Ok(Ok(d)) => Val::L(vec![Val::u(d.sample(&mut r))]),
+                Ok(Ok(d)) => {
+                    let i = d.sample(&mut r);
+                    Val::L(vec![Val::u(i), f64_val(d.total_weight())])
+                }
+            },
+            Call::UniformF(h) => match rand::distr::Uniform::<f64>::new(0.0, *h) {
+                Ok(u) => f64_val(u.sample(&mut r)),
+                Err(rand::distr::uniform::Error::EmptyRange) => werr(1),
+                Err(rand::distr::uniform::Error::NonFinite) => werr(2),
             },
             Call::SetPos(b, off) => {
                 r.set_word_pos((*b as u128) * 16 + *off as u128);
@@ -474,7 +492,9 @@ fn gen_bound(rng: &mut Rng) -> u64 {
         65..=72 => (1u64 << 63) + (rng.next_u64() >> 1),       // u64, second draw in most cases
         73..=78 => u64::MAX - rng.below(4) as u64,
         79..=84 => (1u64 << 32) - 1 - rng.below(4) as u64,
-        85..=92 => rng.next_u64() >> rng.below(64),
+        85..=89 => rng.next_u64() >> rng.below(64),
+        // exact powers of two: the low half of the widening product hits the comparison's boundary
+        90..=95 => 1u64 << rng.range(1, 63),
         _ => rng.range(21, 5000) as u64,
     }
 }
@@ -497,7 +517,7 @@ fn gen_weights_n(rng: &mut Rng) -> Vec<u64> {
     }
     // push the total near a boundary of the uniform sampler
     let k = rng.below(n);
-    match rng.below(12) {
+    match rng.below(14) {
         0 => ws[k] = (1u64 << 31) + (rng.next_u64() >> 34),
         1 => ws[k] = (1u64 << 32) - rng.below(6) as u64,
         2 => {
@@ -513,6 +533,15 @@ fn gen_weights_n(rng: &mut Rng) -> Vec<u64> {
         }
         6 => ws[k] = (rng.next_u64() >> rng.below(64)).max(1),
         7 => ws.iter_mut().for_each(|w| *w = 0),
+        8 | 9 => {
+            // total an exact power of two: threshold 0, and the low half of the product is 0 for
+            // every draw whose low bits are 0 (the boundary `lo >= thresh` of the rejection rule)
+            let t = 1u64 << (if rng.chance(1, 2) { rng.range(28, 31) } else { rng.range(1, 63) });
+            let rest: u64 = ws.iter().enumerate().filter(|(i, _)| *i != k).map(|(_, w)| *w).sum();
+            if rest < t {
+                ws[k] = t - rest;
+            }
+        }
         _ => {}
     }
     ws
@@ -525,6 +554,14 @@ fn gen_weights_f(rng: &mut Rng) -> Vec<f64> {
         _ => rng.range(2, 6),
     };
     let style = rng.below(10);
+    if style == 6 {
+        // a handful of the smallest subnormals: the sample takes few values and meets the cumulative weights exactly
+        return (0..n).map(|_| f64::from_bits(rng.below(4) as u64)).collect();
+    }
+    if style == 7 {
+        // small integers: short mantissas, the product with the 52-bit draw is a rounding tie every other time
+        return (0..n).map(|_| *rng.pick(&[0.0, 1.0, 3.0, 5.0, 7.0, 9.0, 1.5, 2.5])).collect();
+    }
     (0..n)
         .map(|_| match rng.below(24) {
             0..=4 => 0.0,
@@ -552,15 +589,26 @@ fn gen_call(rng: &mut Rng) -> Call {
         10..=19 => Call::U64,
         20..=29 => Call::F64,
         30..=51 => Call::Range(gen_bound(rng)),
-        52..=65 => Call::Shuffle(match rng.below(12) {
-            0 => rng.below(3),
-            1..=5 => rng.range(2, 16),
-            6..=8 => rng.range(10, 40),
-            9..=10 => rng.range(40, 200),
+        52..=65 => Call::Shuffle(match rng.below(24) {
+            0..=1 => rng.below(3),
+            2..=11 => rng.range(2, 16),
+            12..=17 => rng.range(10, 40),
+            18..=22 => rng.range(40, 200),
             _ => rng.range(200, MAX_SHUFFLE),
         }),
         66..=79 => Call::WeightedN(gen_weights_n(rng)),
-        80..=89 => Call::WeightedF(gen_weights_f(rng)),
+        80..=86 => Call::WeightedF(gen_weights_f(rng)),
+        87..=89 => Call::UniformF(match rng.below(12) {
+            0 => 0.0,
+            1 => -2.0,
+            2 => f64::INFINITY,
+            3 => f64::MAX,
+            4 => f64::from_bits(rng.below(6) as u64),                                   // tiniest subnormals
+            5 => f64::from_bits(rng.next_u64() >> 12 >> rng.below(52)),                 // subnormal
+            6..=8 => *rng.pick(&[1.0, 3.0, 5.0, 7.0, 0.75, 1.25, 6.0, 10.0, 1e3]),      // short mantissas: ties
+            9 => f64::from_bits(((1023 + rng.range(0, 40) as u64 - 20) << 52) | (rng.next_u64() >> 12)),
+            _ => f64::from_bits(rng.next_u64() >> 1),
+        }),
         90..=93 => {
             // jump: around 2^32 blocks (the counter's low word carries), around 2^64 (it wraps), anywhere
             let b = match rng.below(4) {
@@ -608,7 +656,8 @@ fn gen_rng_case(rng: &mut Rng) -> Val {
     let mut script: Vec<Call> = vec![];
     // sometimes start just before the end of the 64-word buffer so that u64 draws straddle it
     if rng.chance(1, 4) {
-        for _ in 0..rng.range(59, 63) {
+        let k = if rng.chance(1, 3) { 63 } else { rng.range(57, 63) };
+        for _ in 0..k {
             script.push(Call::U32);
         }
     }
@@ -639,14 +688,14 @@ fn run_rng_case(input: &Val) -> Option<(Val, Vec<String>)> {
     }
     let seed = un_hl(&l[1])?;
     let script: Vec<Call> = l[2].as_l()?.iter().map(val_call).collect::<Option<Vec<Call>>>()?;
-    if script.len() > 120 {
+    if script.len() > 200 {
         return None;
     }
     let mut tags = vec!["rng".to_string()];
     let out = rng_script(seed, &script, &mut tags);
     let samplers = script
         .iter()
-        .filter(|c| matches!(c, Call::Range(_) | Call::Shuffle(_) | Call::WeightedN(_) | Call::WeightedF(_) | Call::Partial(..)))
+        .filter(|c| matches!(c, Call::Range(_) | Call::Shuffle(_) | Call::WeightedN(_) | Call::WeightedF(_) | Call::Partial(..) | Call::UniformF(_)))
         .count();
     if script.len() >= 3 && samplers >= 1 {
         tags.push("nt".into());
@@ -669,7 +718,7 @@ fn canon_rng_case(input: &Val) -> Option<Val> {
     let mut script = vec![];
     for c in l[2].as_l()? {
         let Some(cl) = c.as_l() else { continue };
-        let kind = cl.first().and_then(|x| x.as_i()).unwrap_or(0).rem_euclid(9);
+        let kind = cl.first().and_then(|x| x.as_i()).unwrap_or(0).rem_euclid(10);
         let arg = |k: usize| cl.get(k).cloned().unwrap_or(Val::L(vec![]));
         let num = |k: usize, m: i64| Val::I(cl.get(k).and_then(|x| x.as_i()).unwrap_or(0).rem_euclid(m));
         let fixed = match kind {
@@ -693,6 +742,10 @@ fn canon_rng_case(input: &Val) -> Option<Val> {
                 ),
             ]),
             7 => Val::L(vec![Val::I(7), fix_hl(&arg(1)), num(2, 16)]),
+            9 => Val::L(vec![
+                Val::I(9),
+                val_f64(&arg(1)).filter(|x| !x.is_nan()).map(f64_val).unwrap_or_else(|| f64_val(1.0)),
+            ]),
             _ => {
                 let show = cl.get(3).and_then(|x| x.as_bool()).unwrap_or(true);
                 let len = un_hl(&fix_hl(&arg(1))).unwrap_or(0);
